@@ -234,7 +234,7 @@ def rule_table(ctx):
   okS = bool(stores)
   why = ""
   for e in stores:
-    v = as_poly(e.data["value"])
+    v = sym.resolve_counters(w, as_poly(e.data["value"]))          # a running offset `offset += m` reads as i * m
     # value i*m + j with i, j the enumerate indices of high / BatchAddX(p, low)
     syms = [a for a in v.atoms() if a.kind == "sym"]
     good = False
@@ -476,8 +476,26 @@ def rule_dup(ctx):
   conts = [e for e in w.events if e.kind == "continue"]
   for e in conts:
     last = e.state.pc[-1] if e.state.pc else None
-    ok = last is not None and last[1] and last[0][0] == "cmp" and last[0][1] in ("Is", "Eq") and isinstance(last[0][3], Const) and last[0][3].v is None \
-        and "BatchAddX" in repr(as_poly(last[0][2]))
+    TABLE = sym.mk("attr", P("param", "self"), "_table")
+
+    def reason(c_, pol_):
+      """the condition (under its polarity) says: the candidate is None (identical points), or it is simply not in the table (no hit to follow up)"""
+      if not (isinstance(c_, tuple) and c_):
+        return False
+      if c_[0] == "not":
+        return reason(c_[1], not pol_)
+      if c_[0] in ("and", "or"):
+        disj = (c_[0] == "or") == pol_
+        parts = [reason(x_, pol_) for x_ in c_[1]]
+        return all(parts) if disj else any(parts)
+      if c_[0] == "cmp" and len(c_) == 4:
+        op = c_[1] if pol_ else {"Is": "IsNot", "IsNot": "Is", "Eq": "NotEq", "NotEq": "Eq", "In": "NotIn", "NotIn": "In"}.get(c_[1])
+        if op in ("Is", "Eq") and isinstance(c_[3], Const) and c_[3].v is None and isinstance(c_[2], (Poly, Seq)) and "BatchAddX" in repr(as_poly(c_[2])):
+          return True
+        if op == "NotIn" and isinstance(c_[3], Poly) and c_[3] == TABLE and isinstance(c_[2], Poly) and "BatchAddX" in repr(c_[2]):
+          return True
+      return False
+    ok = last is not None and reason(last[0], last[1])
     if not ok:
       probs.append("a pair is skipped for a reason other than `x is None` (identical points): %s" % (norm(e.node) if e.node else ""))
   for info in w.loop_info.values():
